@@ -240,8 +240,11 @@ class ForLoopPulseTemplate(LoopPulseTemplate, MeasurementDefiner, ParameterConst
     def final_values(self) -> Dict[ChannelID, ExpressionScalar]:
         values = self.body.final_values
         start, step, stop = self._loop_range.start.sympified_expression, self._loop_range.step.sympified_expression, self._loop_range.stop.sympified_expression
-        n = (stop - start) // step
-        final_idx = start + sympy.Max(n - 1, 0) * step
+        # index of the last iteration of range(start, stop, step): (number of iterations) - 1, which for integers is
+        # (stop - start - sign(step)) // step (floor division of the span alone over-/undershoots when the step does
+        # not divide the span)
+        n_last = (stop - start - sympy.sign(step)) // step
+        final_idx = start + sympy.Max(n_last, 0) * step
         for ch, value in values.items():
             values[ch] = ExpressionScalar(value.underlying_expression.subs(self._loop_index, final_idx))
         return values
